@@ -378,6 +378,13 @@ fn real_main() {
                 .collect();
             cases::write_lines(&out, &lines);
         }
+        Some("trace-locals") => {
+            // replay TLC-generated behaviours of Locals.tla on real Modules
+            let hists = wv::builder::read_histories(&get("histories", ""));
+            let lines: Vec<_> = hists.par_iter().enumerate().map(|(k, h)| wv::locals::replay(&format!("l{}", k), h)).collect();
+            cases::write_lines(&out, &lines);
+            println!("histories {}", lines.len());
+        }
         Some("trace-producers") => {
             // replay TLC-generated behaviours of Producers.tla on real Modules
             let hists = wv::builder::read_histories(&get("histories", ""));
